@@ -10,6 +10,7 @@ Suites
   COMPARE-small      exhaustive pairs of short key sequences (duplicates included)
   COMPARE-junkkey    a localization key equal to the generated key of a reference Junk
   ADD-<fmt>          ContentComparer.add for a missing file
+  (accumulate)       one observer over several files: summary = sum of the per-file summaries
 Oracle (implementation only): the expected missing / obsolete / changed / unchanged / keys
 sets and word counts follow from the edit script by construction, no parser involved.
 """
@@ -130,12 +131,29 @@ def gen_case(rng, fmt, spicy=False):
     return {"format": fmt, "ref": ref, "l10n": l10n}
 
 
+def script_json(case):
+    def item(it):
+        return ["junk"] if it[0] == "junk" else ["rec", it[1], it[2], sorted(it[3])]
+    return {"format": case["format"], "ref": [item(i) for i in case["ref"]],
+            "l10n": [item(i) for i in case["l10n"]]}
+
+
+def script_load(js):
+    def key(k):
+        return tuple(k) if isinstance(k, list) else k
+
+    def item(it):
+        return ("junk",) if it[0] == "junk" else ("rec", key(it[1]), list(it[2]), frozenset(it[3]))
+    return {"format": js["format"], "ref": [item(i) for i in js["ref"]],
+            "l10n": [item(i) for i in js["l10n"]]}
+
+
 # -------------------------------------------------------------- rendering ---
-SPICE = {"properties": " %S <br/> <b>bold</b> �", "dtd": " <b>bold<br/>text</b> &amp; �",
-         "ini": " <br> �", "ftl": " { $n } �", "android": " it\\'s � %1$s",
-         "po": " � <br>"}
-SPICE_L10N = {"properties": " %d �", "dtd": " <b>open &foo; �", "ini": " �",
-              "ftl": " { $m } �\n    .extra = attr", "android": " it's �", "po": " �"}
+SPICE = {"properties": " %S <br/> <b>bold</b> \ufffd", "dtd": " <b>bold<br/>text</b> &amp; \ufffd",
+         "ini": " <br> \ufffd", "ftl": " { $n } \ufffd", "android": " it\\'s \ufffd %1$s",
+         "po": " \ufffd <br>"}
+SPICE_L10N = {"properties": " %d \ufffd", "dtd": " <b>open &foo; \ufffd", "ini": " \ufffd",
+              "ftl": " { $m } \ufffd\n    .extra = attr", "android": " it's \ufffd", "po": " \ufffd"}
 
 
 def value_text(fmt, it, side):
@@ -478,6 +496,8 @@ def one_pair(chk, work, fmt, ref_text, l10n_text, verdicts, merge, case=None, co
     req = (0, [vt, tables.ref_sx, tables.l10n_sx, tables.chk_sx, int(merge)])
     desc = {"format": fmt, "ref": ref_text, "l10n": l10n_text, "verdicts": verdicts and
             [[k, v] for k, v in verdicts.items()], "merge": merge}
+    if case is not None:
+        desc["script"] = script_json(case)
     if count:
         chk.count((fmt, ref_text, l10n_text, sorted(vt), merge))
     if res[0] == 0 and not mirror:
@@ -564,11 +584,11 @@ def suite_compare(chk, work, model, fmt, n, spicy):
 
 
 def suite_small(chk, work, model):
-    """every pair of key sequences of length <= 3 over {a, akey, b}, as .properties;
+    """every pair of key sequences of length <= 3 (thorough: 4) over {a, akey, b}, as .properties;
     values alternate so that equal and different values both occur"""
     import itertools
     keys = ["a", "akey", "b"]
-    seqs = [list(p) for n in range(chk.n(3, 4)) for p in itertools.product(keys, repeat=n)]
+    seqs = [list(p) for n in range(chk.n(4, 5)) for p in itertools.product(keys, repeat=n)]
     reqs, impl, tabs, descs = [], [], [], []
     for i, l in enumerate(seqs):
         for j, r in enumerate(seqs):
@@ -613,41 +633,53 @@ def suite_junkkey(chk, work, model):
         chk.correspond("COMPARE-junkkey", descs, impl, outs)
 
 
-def suite_add(chk, work, model, fmt, n):
+def add_one(chk, work, fmt, case, fv):
+    """ContentComparer.add on the rendered reference + oracle; -> (impl result, description)"""
     from compare_locales.compare.content import ContentComparer
     from compare_locales.compare.observer import Observer
     from compare_locales.paths import File
+    ref_text = render(fmt, case["ref"], "ref")
+    refpath, l10npath = work.paths(fmt)
+    write(refpath, ref_text)
+    if os.path.exists(l10npath):
+        os.remove(l10npath)
+    cc = ContentComparer()
+    obs = Observer(filter=make_filter({}, fv) if fv is not None else None)
+    cc.observers.append(obs)
+    reset_junk()
+    desc = {"format": fmt, "ref": ref_text, "file_verdict": fv, "add_script": script_json(case)}
+    try:
+        cc.add(File(refpath, FILE[fmt], locale="xx"), File(l10npath, FILE[fmt], locale="xx"), None)
+    except Exception as e:  # noqa
+        chk.fail(f"{fmt}-add-file-raised", desc, repr(e))
+        return None, desc
+    js = obs.toJSON()
+    summ = js["summary"].get("xx")
+    res = [[summ.get("missing", -1), summ.get("missing_w", -1)]] if summ is not None else []
+    det = list(js["details"].values())
+    det = det[0] if det else []
+    recs = [it for it in case["ref"] if it[0] == "rec"]
+    want = [] if fv == "ignore" else [[len(recs), sum(len(it[2]) for it in recs)]]
+    want_det = [] if fv == "ignore" else [{"missingFile": fv or "error"}]
+    if res != want or det != want_det:
+        chk.fail(f"{fmt}-add-file", desc, {"summary": summ, "details": det, "expected": want})
+    return res, desc
+
+
+def suite_add(chk, work, model, fmt, n):
+    from compare_locales import parser
     rng = chk.rng
     reqs, impl, descs = [], [], []
     for _ in range(n):
         case = gen_case(rng, fmt)
-        ref_text = render(fmt, case["ref"], "ref")
-        refpath, l10npath = work.paths(fmt)
-        write(refpath, ref_text)
-        if os.path.exists(l10npath):
-            os.remove(l10npath)
         fv = rng.choice(["error", "error", "ignore", "warning", None])
-        cc = ContentComparer()
-        obs = Observer(filter=make_filter({}, fv) if fv is not None else None)
-        cc.observers.append(obs)
+        res, desc = add_one(chk, work, fmt, case, fv)
+        chk.count(("add", fmt, desc["ref"], fv))
+        if res is None:
+            continue
         reset_junk()
-        cc.add(File(refpath, FILE[fmt], locale="xx"), File(l10npath, FILE[fmt], locale="xx"), None)
-        js = obs.toJSON()
-        summ = js["summary"].get("xx")
-        res = [[summ["missing"], summ["missing_w"]]] if summ is not None else []
-        det = list(js["details"].values())
-        det = det[0] if det else []
-        desc = {"format": fmt, "ref": ref_text, "file_verdict": fv}
-        chk.count(("add", fmt, ref_text, fv))
-        recs = [it for it in case["ref"] if it[0] == "rec"]
-        want = [] if fv == "ignore" else [[len(recs), sum(len(it[2]) for it in recs)]]
-        want_det = [] if fv == "ignore" else [{"missingFile": fv or "error"}]
-        if res != want or det != want_det:
-            chk.fail(f"{fmt}-add-file", desc, {"summary": summ, "details": det, "expected": want})
-        reset_junk()
-        from compare_locales import parser
         p = parser.getParser(FILE[fmt])
-        p.readFile(refpath)
+        p.readFile(work.paths(fmt)[0])
         ents = []
         for i, e in enumerate(p.parse()):
             junk = isinstance(e, parser.Junk)
@@ -657,6 +689,44 @@ def suite_add(chk, work, model, fmt, n):
         descs.append(desc)
     if model:
         chk.correspond(f"ADD-{fmt}", descs, impl, model.call(reqs))
+
+
+def accumulate_one(chk, work, cases):
+    """cases: edit scripts of different formats; -> None or (got, want)"""
+    from compare_locales.compare.content import ContentComparer
+    from compare_locales.compare.observer import Observer
+    from compare_locales.paths import File
+    singles = []
+    for case in cases:
+        fmt = case["format"]
+        req, res, tables, desc = one_pair(chk, work, fmt, render(fmt, case["ref"], "ref"),
+                                          render(fmt, case["l10n"], "l10n"), None, False, case)
+        singles.append(res[1][5] if res[0] == 0 else None)
+    if None in singles:
+        return None
+    cc = ContentComparer()
+    obs = Observer()
+    cc.observers.append(obs)
+    for case in cases:
+        fmt = case["format"]
+        refpath, l10npath = work.paths(fmt)
+        cc.compare(File(refpath, FILE[fmt], locale="xx"), File(l10npath, FILE[fmt], locale="xx"), None)
+    summ = obs.toJSON()["summary"].get("xx", {})
+    got = [summ.get("errors", 0), summ.get("warnings", 0)] + [summ.get(k, 0) for k in STATS]
+    want = [sum(col) for col in zip(*singles)]
+    return None if got == want else (got, want)
+
+
+def suite_accumulate(chk, work, n):
+    """one observer over several files of a locale: the summary is the sum of the per-file
+    summaries (the stats dict is pushed once per file and added up)"""
+    rng = chk.rng
+    for _ in range(n):
+        cases = [gen_case(rng, fmt) for fmt in rng.sample(FORMATS, rng.randint(2, 3))]
+        bad = accumulate_one(chk, work, cases)
+        if bad:
+            chk.fail("summary-accumulate", {"scripts": [script_json(c) for c in cases]},
+                     {"summary": bad[0], "sum of per-file summaries": bad[1]})
 
 
 def suite_keyname(chk, model):
@@ -687,10 +757,11 @@ def run(chk, runner_ok):
     try:
         suite_small(chk, work, model)
         suite_junkkey(chk, work, model)
+        suite_accumulate(chk, work, chk.n(60, 400))
         for fmt in FORMATS:
-            suite_compare(chk, work, model, fmt, chk.n(450, 6000), spicy=False)
-            suite_compare(chk, work, model, fmt, chk.n(150, 2000), spicy=True)
-            suite_add(chk, work, model, fmt, chk.n(60, 600))
+            suite_compare(chk, work, model, fmt, chk.n(1500, 8000), spicy=False)
+            suite_compare(chk, work, model, fmt, chk.n(500, 3000), spicy=True)
+            suite_add(chk, work, model, fmt, chk.n(150, 1000))
     finally:
         work.close()
     chk.trusted.append("fluent.syntax AST equality (FluentEntity.equals) and every count_words() are "
@@ -698,28 +769,52 @@ def run(chk, runner_ok):
 
 
 def replay(chk, path):
+    """re-run the recorded failing inputs through implementation + oracle; 1 if any still fails"""
+    from compare_locales.compare.content import ContentComparer
     data = json.load(open(path))
     rc = 0
     work = Work()
     try:
         for f in data.get("failures", []):
             c = f["case"]
-            if "l10n" not in c:
-                print("case", c, "->", f["detail"])
+            before = len(chk.failures) + sum(v["n"] for v in chk.known_seen.values())
+            if "script" in c:
+                verdicts = None
+                if c.get("verdicts"):
+                    verdicts = {(tuple(k) if isinstance(k, list) else k): v for k, v in c["verdicts"]}
+                req, res, tables, desc = one_pair(chk, work, c["format"], c["ref"], c["l10n"], verdicts,
+                                                  c["merge"], script_load(c["script"]), count=False)
+                print("case", json.dumps({k: c[k] for k in ("format", "ref", "l10n", "verdicts", "merge")}))
+                print("  implementation:", res)
+            elif "add_script" in c:
+                res, _ = add_one(chk, work, c["format"], script_load(c["add_script"]), c["file_verdict"])
+                print("case add", json.dumps({k: c[k] for k in ("format", "ref", "file_verdict")}), "->", res)
+            elif "scripts" in c:
+                bad = accumulate_one(chk, work, [script_load(x) for x in c["scripts"]])
+                print("case accumulate", [x["format"] for x in c["scripts"]], "->", bad)
+                if bad:
+                    chk.fail("summary-accumulate", c, bad)
+            elif "key" in c:
+                k = tuple(c["key"]) if isinstance(c["key"], list) else c["key"]
+                got = int(bool(isinstance(k, str) and ContentComparer.keyRE.search(k)))
+                print("case key", repr(k), "keyRE:", got, "contains key/Key:", int(contains_key(k)))
+                if got != int(contains_key(k)):
+                    chk.fail("keyname", c, got)
+            else:
+                print("case", json.dumps(c, default=str)[:800], "(not re-runnable)")
                 rc = 1
                 continue
-            verdicts = None
-            if c.get("verdicts"):
-                verdicts = {(tuple(k) if isinstance(k, list) else k): v for k, v in c["verdicts"]}
-            req, res, tables, desc = one_pair(chk, work, c["format"], c["ref"], c["l10n"], verdicts,
-                                              c["merge"], count=False)
-            print("case", json.dumps(c)[:600])
-            print("  signature", f["signature"], "impl", res)
-            print("  recorded detail", json.dumps(f["detail"], default=str)[:600])
-            rc = 1
+            after = len(chk.failures) + sum(v["n"] for v in chk.known_seen.values())
+            print("  ->", "still fails: " + str([x["signature"] for x in chk.failures[-(after - before):]])
+                  if after > before else "no longer fails")
+            rc |= after > before
+        only_obligations = not data.get("failures")
         for d in data.get("disagreements", []):
-            print("disagreement", json.dumps(d, default=str)[:1200])
-            rc = 1
+            print("disagreement (model vs implementation):", json.dumps(d, default=str)[:1500])
+        for o in data.get("broken_obligations", []):
+            print("broken obligation (at the time of the recording):", o["name"], o["detail"][-300:])
+        if only_obligations:
+            rc = 1      # nothing to re-run: an obligation broke without a failing input
     finally:
         work.close()
     return int(rc)
